@@ -499,6 +499,9 @@ def main(argv=None):
     wall = time.monotonic() - t_start
     if not args.no_evidence:
         evidence.write(agg, prop, wall, len(violations_out), known_lines)
+    if agg.maxerr:
+        print('max observed error by relation: %s' % json.dumps(
+            {k: float('%.3g' % v) for k, v in sorted(agg.maxerr.items())}))
     print('%s %s: %d runs, %d ops, %.0f runs/h, %d violations, wall %.1fs' % (
         pid, tier, agg.runs, agg.total_ops(),
         agg.runs / max(wall, 1e-9) * 3600, len(violations_out), wall))
